@@ -104,7 +104,7 @@ func c03RawLine(t *rapid.T, side int) gm.G {
 func c03Gen(t *rapid.T, cx *h.Ctx) C03Case {
 	c := C03Case{}
 	side := rapid.IntRange(3, 6).Draw(t, "side")
-	fam := rapid.IntRange(0, 9).Draw(t, "family")
+	fam := rapid.IntRange(0, 10).Draw(t, "family")
 	typ := rapid.SampledFrom(gm.Types).Draw(t, "type")
 	switch {
 	case fam <= 3: // raw rings/lines without acceptance
@@ -172,6 +172,36 @@ func c03Gen(t *rapid.T, cx *h.Ctx) C03Case {
 			c.Family = "complex+edit"
 		}
 		c.G = g
+	case fam == 10: // inscribed rings: a ring whose vertices all lie on another ring, touching its bounding box on every side
+		c.Family = "inscribed"
+		a, b := rapid.IntRange(1, 3).Draw(t, "ia"), rapid.IntRange(1, 3).Draw(t, "ib")
+		A, B := float64(2*a), float64(2*b)
+		outer := gm.Fs(0, 0, A, 0, A, B, 0, B, 0, 0)
+		// boundary points of the outer rectangle in counter-clockwise order: corners and edge midpoints
+		bp := [][2]float64{{0, 0}, {float64(a), 0}, {A, 0}, {A, float64(b)}, {A, B}, {float64(a), B}, {0, B}, {0, float64(b)}}
+		// an inner ring through 3..5 of them in cyclic order (a diamond through the midpoints, a triangle with a
+		// vertex in a corner, ...)
+		start := rapid.IntRange(0, 7).Draw(t, "istart")
+		var inner []float64
+		idx := start
+		for k := rapid.IntRange(3, 5).Draw(t, "ik"); k > 0 && idx < start+8; k-- {
+			inner = append(inner, bp[idx%8][0], bp[idx%8][1])
+			idx += rapid.IntRange(1, 3).Draw(t, "istep")
+		}
+		inner = append(inner, inner[0], inner[1])
+		po := gm.G{T: gm.Polygon, Rings: [][]gm.F{outer}}
+		pi := gm.G{T: gm.Polygon, Rings: [][]gm.F{gm.Fs(inner...)}}
+		switch rapid.IntRange(0, 3).Draw(t, "ishape") {
+		case 0: // the inscribed ring as a hole
+			c.G = gm.G{T: gm.Polygon, Rings: [][]gm.F{outer, gm.Fs(inner...)}}
+		case 1:
+			c.G = gm.G{T: gm.MultiPolygon, Mem: []gm.G{po, pi}}
+		case 2:
+			c.G = gm.G{T: gm.MultiPolygon, Mem: []gm.G{pi, po}}
+		default:
+			far := gm.G{T: gm.Polygon, Rings: [][]gm.F{gm.Fs(20, 20, 22, 20, 22, 22, 20, 20)}}
+			c.G = gm.G{T: gm.MultiPolygon, Mem: []gm.G{far, po, {T: gm.Polygon}, pi}}
+		}
 	default: // non-finite ordinates injected into a valid geometry
 		c.Family = "nonfinite"
 		cpx := gen.DrawComplex(t, 2, [2]int{0, 0})
